@@ -69,7 +69,7 @@ def run(repo, tier) -> Result:
         check_function("C02", res, repo, fi, want=("R-WRAP", "R-CAUSAL", "R-NORM"))
     check_amorph("C02", res, repo)
     check_calculate_driver("C02", res, repo, want=("R-SKIP", "R-SWEEP"))
-    check_resume("C02", res, repo.method("hexital.core.indicator", "Indicator", "_find_calc_index"), "self.candles", "membership")
+    check_resume("C02", res, repo.method("hexital.core.indicator", "Indicator", "_find_calc_index"), "self.candles", "membership", repo=repo)
     check_collapse_targets("C02", res, repo)
     from ..contracts import check_all
 
